@@ -235,7 +235,7 @@ func cmdCheck(prop, tier string) int {
 	if os.Getenv("GOVC_REBASELINE") == "1" {
 		baseline = nil // an explicit re-baseline: the previous list does not apply
 	}
-	replayDir := filepath.Join(verifRoot, "replays", prop)
+	replayDir := filepath.Join(outRoot, "replays", prop)
 	_ = os.MkdirAll(replayDir, 0o755)
 
 	var (
@@ -506,9 +506,9 @@ func cmdCheck(prop, tier string) int {
 		"wall_s":      float64(int(time.Since(t0).Seconds()*100)) / 100,
 		"violations":  violations,
 	}
-	_ = os.MkdirAll(filepath.Join(verifRoot, "evidence"), 0o755)
+	_ = os.MkdirAll(filepath.Join(outRoot, "evidence"), 0o755)
 	data, _ := json.MarshalIndent(ev, "", " ")
-	_ = os.WriteFile(filepath.Join(verifRoot, "evidence", prop+".json"), data, 0o644)
+	_ = os.WriteFile(filepath.Join(outRoot, "evidence", prop+".json"), data, 0o644)
 	if os.Getenv("GOVC_REBASELINE") == "1" && violations == 0 && len(engineBad) == 0 {
 		writeBaseline(prop, frs)
 	}
